@@ -3337,8 +3337,17 @@ fn identify_run<Int>(c: &IdCase) -> Option<Ids>
 where
     Int: Add<Output = Int> + From<u8> + Default + Copy + Into<u64>,
 {
-    let o = Off { off: c.o_off, v: c.old.iter().map(|&x| OItem(x, 0)).collect::<Vec<_>>() };
-    let n = Off { off: c.n_off, v: c.new.iter().map(|&x| NItem(x, 0)).collect::<Vec<_>>() };
+    identify_run_salted::<Int>(c, 0)
+}
+
+/// `salt` changes only how the items HASH (parity of the label, one constant, like a string): lawful `Hash`
+/// implementations that agree between the two item types, under which equal ids must still mean equal items
+fn identify_run_salted<Int>(c: &IdCase, salt: u32) -> Option<Ids>
+where
+    Int: Add<Output = Int> + From<u8> + Default + Copy + Into<u64>,
+{
+    let o = Off { off: c.o_off, v: c.old.iter().map(|&x| OItem(x, salt)).collect::<Vec<_>>() };
+    let n = Off { off: c.n_off, v: c.new.iter().map(|&x| NItem(x, salt)).collect::<Vec<_>>() };
     catch_unwind(AssertUnwindSafe(|| {
         let h = IdentifyDistinct::<Int>::new(&o, c.os..c.oe, &n, c.ns..c.ne);
         let (or, nr) = (h.old_range(), h.new_range());
@@ -3402,6 +3411,15 @@ fn identify_case(ctx: &mut Ctx, c: &IdCase) -> String {
             }
             if identify_run::<u64>(c).as_ref() != Some(r32) {
                 ctx.violation("C14", &req, "IdentifyDistinct::<u64> gives different ids".to_string());
+            }
+            // the numbering may depend on the items only through `==`: heavily colliding (parity), constant and
+            // string-like hashes must give the very same ids (a table keyed by a hash or fingerprint of the items
+            // instead of the items gives one number to unequal items)
+            for (salt, what) in [(obs::WEAK_HASH, "a hash that keeps only the parity of the item"), (obs::CONST_HASH, "a constant hash"), (obs::STR_HASH, "a string-like hash")] {
+                if identify_run_salted::<u32>(c, salt).as_ref() != Some(r32) {
+                    ctx.violation("C14", &req, format!("IdentifyDistinct gives different ids when the items hash differently ({}): equal numbers no longer mean equal items", what));
+                    break;
+                }
             }
             let distinct = r32.0.iter().chain(r32.1.iter()).collect::<BTreeSet<_>>().len();
             if distinct >= 2 && distinct < r32.0.len() + r32.1.len() {
